@@ -14,8 +14,10 @@ def revcomp(s):
 	return "".join(COMP.get(c, "N") for c in reversed(s))
 
 
-def write_fasta(path, chroms, width=60, newline="\n"):
-	"""chroms: list of (name, sequence string)."""
+def write_fasta(path, chroms, width=60, newline="\n", keep_index=False):
+	"""chroms: list of (name, sequence string).  keep_index: leave an existing
+	.fai in place and make the FASTA 10 s newer than it (a regenerated genome
+	next to a stale index, which pyfaidx rebuilds by default)."""
 	with open(path, "w", newline="") as f:
 		for name, seq in chroms:
 			f.write(">" + name + newline)
@@ -23,7 +25,11 @@ def write_fasta(path, chroms, width=60, newline="\n"):
 				f.write(seq[i:i + width] + newline)
 	fai = path + ".fai"
 	if os.path.exists(fai):
-		os.remove(fai)
+		if keep_index:
+			t = os.stat(fai).st_mtime + 10
+			os.utime(path, (t, t))
+		else:
+			os.remove(fai)
 	return path
 
 
